@@ -49,7 +49,8 @@ structure Config where
 
 structure Params where
   searchLen : Nat := 5
-  maxSize : Nat := 100 * 1024 * 1024
+  maxSize : Nat := 100 * 1024 * 1024       -- add_version.rs MAX_SIZE
+  maxSizeSnap : Nat := 100 * 1024 * 1024   -- add_snapshot.rs MAX_SIZE
   deriving DecidableEq, Repr
 
 end Tcs
